@@ -33,6 +33,8 @@ def run(chk, ix, tier):
     rules_matching.check_parser_ownership(chk, ix)
     rules_matching.check_type_registry_sharing(chk, ix)
     rules_matching.check_unwrap_function(chk, ix)
+    rules_matching.check_same_step_definition(chk, ix)
+    rules_matching.check_type_pattern_groups(chk, ix)
     rules_order.check_match_protection(chk, ix)
-    for r, n in (("M1", 5), ("M2", 36), ("M3", 10), ("M4", 2), ("M5", 3), ("M6", 300), ("M7", 1), ("M8", 1), ("M9", 3), ("M10", 4)):
+    for r, n in (("M1", 5), ("M2", 36), ("M3", 10), ("M4", 2), ("M5", 3), ("M6", 300), ("M7", 1), ("M8", 1), ("M9", 3), ("M10", 4), ("M11", 4)):
         chk.require_instances(r, n)
